@@ -314,6 +314,10 @@ func logqlSites() {
 		add(idSite("json_label_name", "logql_json_label_name", `{a="b"} | json §="y"`, reLogQLLabel))
 		add(idSite("json_path_ident/second", "logql_json_path", `{a="b"} | json lbl="c.§"`, reGoIdent))
 		add(idSite("json_path_ident/only_dq", "logql_json_path", `{a="b"} | json lbl="§"`, reGoIdent))
+		add(idSite("json_path_ident/first_of_dotted", "logql_json_path", `{a="b"} | json lbl="§.d.e"`, reGoIdent))
+		add(idSite("json_path_ident/after_index", "logql_json_path", `{a="b"} | json lbl="c[0].§"`, reGoIdent))
+		add(idSite("json_path_ident/before_index", "logql_json_path", "{a=\"b\"} | json lbl=`§[1]`, m=\"n\"", reGoIdent))
+		add(idSite("json_path_ident/after_field", "logql_json_path", `{a="b"} | json lbl="[\"c d\"].§"`, reGoIdent))
 		add(idSite("json_path_ident/only_bt_rate", "logql_json_path", "rate({a=\"b\"} | json lbl=`§` [5s])", reGoIdent))
 		add(idSite("regexp_group_name", "logql_regexp", `{a="b"} | regexp "(?P<§>x)"`, reRegexpGroup))
 		add(idSite("drop_name/bare", "logql_drop_name", `{a="b"} | drop §`, reLogQLLabel))
